@@ -466,7 +466,8 @@ class UnionMetaType(StructureMetaType):
         for field in fields:
             if size is not None:
                 try:
-                    size = max(len(field.type), size)
+                    # A member may have been placed at an explicit offset
+                    size = max((field.offset or 0) + len(field.type), size)
                 except TypeError:
                     size = None
 
